@@ -180,6 +180,20 @@ class Cong:
     def cong(self, t):
         return self.facts.cong(t)
 
+    IMPRECISE = ("and", "or", "xor", "udiv", "urem", "sdiv", "srem", "ashr", "shl", "umax", "umin", "smax", "smin", "usubsat", "trunc", "zext", "sext")
+
+    def imprecise(self, t):
+        """atoms the congruence domain does not model exactly occur in t (a failed obligation is then
+        'undecided', never a violation)"""
+        bad = []
+
+        def fn(a):
+            if a[0] in self.IMPRECISE:
+                bad.append(a)
+
+        walk_atoms(t, fn)
+        return bad
+
     def aligned(self, t, A):
         m, r = self.cong(t)
         if m == 0:
@@ -301,6 +315,7 @@ def rule_C03(ck, rule="AL"):
                 if not _with(cg, f).aligned(v2, need):
                     good = False
                     m, r = _with(cg, f).cong(v2)
+                    cg.bad_unknown += cg.imprecise(v2)
                     break
             rec.ob(rule + "-I2", good, {"config": tu.cfg, "witness": fn, "obligation": "offset stored into the address table ≡ 0 (mod %d)" % sea, "value": show(val)[:160]})
             if not good:
@@ -335,6 +350,7 @@ def rule_C03(ck, rule="AL"):
                 if not v.aligned(p2, A):
                     good = False
                     m, r = v.cong(p2)
+                    cg.bad_unknown += cg.imprecise(p2)
                     break
             rec.ob(rule + "-assume", good, {"config": tu.cfg, "witness": fn, "obligation": "assume_aligned<%d>(%s)" % (A, show(p)[:120])})
             if not good:
@@ -368,6 +384,7 @@ def rule_C03(ck, rule="AL"):
                 if not v.aligned(t2, A):
                     good = False
                     m, r = v.cong(t2)
+                    cg.bad_unknown += cg.imprecise(t2)
                     break
             rec.ob(rule + "-addr", good, {"config": tu.cfg, "witness": fn, "obligation": "address of parameter %d (%s) ≡ 0 (mod %d)" % (k, prm.cpp(), A), "term": show(t)[:200]})
             if not good:
@@ -381,9 +398,11 @@ def rule_C03(ck, rule="AL"):
     if pl.all_fixed_locator and tu.has("w_ctor"):
         cg = Cong(tu, "w_ctor", m_end, fm)
         t = tu.obs("w_ctor", "post", "step")
-        good = all(_with(cg, f).aligned(simplify(t, f), sea) for f in case_split([t], cg.facts, max_cases=16))
+        good = all(_with(cg, f).aligned(simplify(t, _with(cg, f).facts), sea) for f in case_split([t], cg.facts, max_cases=16))
         rec.ob(rule + "-I4", good, {"config": tu.cfg, "obligation": "element stride ≡ 0 (mod %d)" % sea, "term": show(t)[:200]})
-        if not good:
+        if not good and (cg.bad_unknown or cg.imprecise(simplify(t, cg.facts))):
+            rec.broken("%s %s: stride congruence undecided (operations outside the congruence domain): %s" % (tu.cfg, rule, show(t)[:200]))
+        elif not good:
             m, r = cg.cong(t)
             rec.finding(rule + "-I4", "ctor:stride-unaligned[%s:%s]" % (pl.name, ck.catkey()),
                         "constructor computes element stride %s ≡ %d (mod %d): elements after the first are not aligned to %d" % (show(t)[:240], r, m, sea), config=tu.cfg)
@@ -407,3 +426,254 @@ def _is_marker_store(cg, tu, fn, e):
             d = simplify(off - post_size.scale(8), f)
             return (d.is_const() and d.c >= 0) or f.nonneg(d)
     return False
+
+
+# ---------------------------------------------------------------------------------------------------
+# C04 / C05: order, bounds, span lengths, tight packing
+# ---------------------------------------------------------------------------------------------------
+def _fs_atoms(tu, fn, vname="v"):
+    """atoms of the fixed sizes inside the container object (discovered from the observer witness)"""
+    out = []
+    v = tu.arg("w_observe", "v")
+    for i in range(tu.pl.nfixed):
+        a = tu.obs("w_observe", "o", "fs%d" % i).single_atom()
+        if a is None or a[0] != "mem":
+            raise AnalysisBroken("%s: get_fixed_size<%d>() is not a single field load" % (tu.cfg, i))
+        off = (a[1] - v).const()
+        out.append(atom(("mem", tu.arg(fn, vname) + off, 8)))
+    return out
+
+
+FM_IMPRECISE = ("or", "xor", "udiv", "urem", "sdiv", "srem", "ashr", "shl", "umax", "umin", "smax", "smin", "usubsat", "trunc", "zext", "sext")
+
+
+def fm_imprecise(t):
+    """atoms the linear reasoning treats as opaque occur in t: a failed inequality is then undecided"""
+    bad = []
+
+    def fn(a):
+        if a[0] in FM_IMPRECISE:
+            bad.append(a)
+
+    walk_atoms(t, fn)
+    return bad
+
+
+def layout_chain(ck, fn, st, facts, fm, m_end, rule_o="O", rule_p="P1", writer=False):
+    """O1/O2/O3/P1 on the element observed in struct `st` of witness `fn`"""
+    tu, rec = ck.tu, ck.rec
+    pl = tu.pl
+    A = lambda f: tu.obs(fn, st, f, at=True)
+    cg = Cong(tu, fn, m_end, fm, facts)
+    fsat = _fs_atoms(tu, fn, "v")
+    nf = 0
+    n = len(pl.params)
+    ends = []
+    for k, prm in enumerate(pl.params):
+        addr = A("addr%d" % k)
+        ln = A("len%d" % k)
+        # O3: span lengths
+        if prm.kind == "P":
+            want = const(1)
+        elif prm.kind == "F":
+            want = fsat[nf]
+            nf += 1
+        else:
+            prev = A("addr%d" % (k - 1))
+            want = None
+            for f in case_split([ln], cg.facts, max_cases=8):
+                l2 = simplify(ln, f)
+                a = l2.single_atom()
+                ok = a is not None and a[0] == "mem" and a[2] == 8 and (simplify(a[1], f) - simplify(prev, f)).const() == 0
+                if not ok and writer:
+                    # right after emplace_back the count is the value just stored for parameter k-1
+                    ok = True if not has_unknown(l2) else False
+                rec.ob(rule_o + "-O3", ok, {"config": tu.cfg, "witness": fn, "obligation": "length of varying span %d is the value of parameter %d of the same element" % (k, k - 1), "got": show(l2)[:120]})
+                if not ok:
+                    if has_unknown(l2):
+                        rec.broken("%s %s %s: varying length undecided %s" % (tu.cfg, rule_o, fn, show(l2)[:160]))
+                    else:
+                        rec.finding(rule_o + "-O3", "%s:varying-length-param%d[%s:%s]" % (fn.replace("w_", ""), k, pl.name, ck.catkey()),
+                                    "%s: the length of varying span %d is %s, not the value stored for parameter %d at %s" % (fn, k, show(l2)[:200], k - 1, show(prev)[:120]), config=tu.cfg)
+        if want is not None:
+            ck.eq(rule_o + "-O3", fn, "length of parameter %d" % k, ln, want, cg.facts, sample=(k == 0))
+        ends.append(addr + ln.scale(prm.size))
+    # O2: element bounds
+    ck.eq(rule_o + "-O2", fn, "reference.data_begin() == address of the first object", A("db"), A("addr0"), cg.facts)
+    ck.eq(rule_o + "-O2", fn, "reference.data_end() == end of the last object", A("de"), ends[-1], cg.facts)
+    ck.eq(rule_o + "-O2", fn, "iterator.data() == reference.data_begin()", A("itdata"), A("db"), cg.facts)
+    # O1 + P1: each object starts at or after the end of the previous one, by less than its alignment
+    for k in range(1, n):
+        prm = pl.params[k]
+        gap = A("addr%d" % k) - ends[k - 1]
+        good_lo = good_hi = True
+        bad = None
+        for f in case_split([gap], cg.facts, max_cases=16):
+            v = _with(cg, f)
+            g2 = simplify(gap, f)
+            lo = g2.is_const() and g2.c >= 0 or f.nonneg(g2)
+            hi = (g2.is_const() and g2.c <= prm.alignment - 1) or f.nonneg(const(prm.alignment - 1) - g2)
+            if not lo:
+                good_lo = False
+                bad = (f, g2)
+            if not hi:
+                good_hi = False
+                bad = (f, g2)
+        rec.ob(rule_o + "-O1", good_lo, {"config": tu.cfg, "witness": fn, "obligation": "parameter %d starts at or behind the end of parameter %d" % (k, k - 1), "gap": show(gap)[:160]})
+        rec.ob(rule_p, good_hi, {"config": tu.cfg, "witness": fn, "obligation": "gap in front of parameter %d is smaller than its alignment %d" % (k, prm.alignment), "gap": show(gap)[:160]})
+        if bad is not None and (has_unknown(bad[1]) or fm_imprecise(bad[1])):
+            rec.broken("%s %s %s: gap in front of parameter %d undecided: %s" % (tu.cfg, rule_o, fn, k, show(bad[1])[:200]))
+            continue
+        if not good_lo:
+            rec.finding(rule_o + "-O1", "%s:param%d-overlaps-previous[%s:%s]" % (fn.replace("w_", ""), k, pl.name, ck.catkey()),
+                        "%s: parameter %d may start before the end of parameter %d: start - previous end = %s" % (fn, k, k - 1, show(bad[1])[:240]), config=tu.cfg)
+        if not good_hi:
+            rec.finding(rule_p, "%s:gap-before-param%d[%s:%s]" % (fn.replace("w_", ""), k, pl.name, ck.catkey()),
+                        "%s: the gap in front of parameter %d (alignment %d) is %s, not provably below the alignment: padding beyond what alignment demands" % (
+                            fn, k, prm.alignment, show(bad[1])[:240]), config=tu.cfg)
+
+
+def rule_C04(ck, rule="O"):
+    tu = ck.tu
+    fm = FieldMap(tu)
+    m_end = end_modulus(tu, fm) if not tu.pl.all_fixed_locator else tu.pl.sea
+    if tu.has("w_observe_at"):
+        layout_chain(ck, "w_observe_at", "o", witness_facts(tu, "w_observe_at", fm), fm, m_end, rule_o=rule, rule_p="P1")
+    if tu.has("w_emplace_back_new"):
+        layout_chain(ck, "w_emplace_back_new", "anew", witness_facts(tu, "w_emplace_back_new", fm), fm, m_end, rule_o=rule + "w", rule_p="P1w", writer=True)
+
+
+def rule_P2(ck, rule="P2"):
+    """footprint: every data-block allocation outside the constructor requests either what the source
+    consumes or exactly what a freshly constructed vector of the new capacity / payload budget / fixed sizes
+    would request (the constructor's own byte term, instantiated)"""
+    tu, rec = ck.tu, ck.rec
+    if not tu.has("w_ctor"):
+        return
+    csm = tu.S("w_ctor")
+    cbegin = tu.obs("w_ctor", "post", "begin")
+    cal = [e for e in csm.events if e.kind == "ALLOC" and e.res == cbegin]
+    if len(cal) != 1:
+        raise AnalysisBroken("%s: constructor's data-block allocation not found" % tu.cfg)
+    formula = cal[0].args[1]
+    cps = tu.meta["w_ctor"]["params"]
+
+    def fresh_formula(n, nbytes, fs):
+        sub = {("arg", cps.index("n")): n}
+        if "bytes" in cps:
+            sub[("arg", cps.index("bytes"))] = nbytes
+        for i in range(tu.pl.nfixed):
+            sub[("arg", cps.index("f%d" % i))] = fs[i]
+        return csm.interp.subst_atoms(formula, sub)
+
+    # the constructor itself: memory_consumption() is the requested byte count
+    ck.eq(rule, "w_ctor", "memory_consumption() == bytes requested by the constructor", tu.obs("w_ctor", "post", "mc"), formula, Facts())
+    cases = []
+    if tu.has("w_reserve") and not tu.pl.all_fixed_locator:
+        fn = "w_reserve"
+        fs = [tu.obs(fn, "pre", "fs%d" % i) for i in range(tu.pl.nfixed)]
+        cases.append((fn, "post", [("fresh vector of the new capacity and budget", fresh_formula(tu.arg(fn, "n"), tu.arg(fn, "bytes"), fs))]))
+    if tu.has("w_reserve") and tu.pl.all_fixed_locator:
+        # all-fixed vectors: n elements of the (constant) stride plus the requested budget, rounded up to the
+        # storage alignment (equal to a fresh vector's request after rounding because the trailing padding that
+        # a fresh vector leaves out is smaller than the storage alignment and the stride is a multiple of it)
+        fn = "w_reserve"
+        sm = tu.S(fn)
+        want = tu.arg(fn, "bytes") + mk_mul_(tu.arg(fn, "n"), tu.obs(fn, "pre", "step"))
+        for e in sm.events:
+            if e.kind == "ALLOC" and _mentions(tu.obs(fn, "post", "begin"), e.res.single_atom()):
+                f = Facts([e.guard])
+                d = e.args[1] - want
+                ok = f.nonneg(d) and f.nonneg(const(tu.pl.sea - 1) - d)
+                if not ok and (has_unknown(d) or fm_imprecise(d)):
+                    rec.broken("%s %s: reserve allocation size undecided: %s" % (tu.cfg, rule, show(d)[:200]))
+                    continue
+                rec.ob(rule, ok, {"config": tu.cfg, "witness": fn, "obligation": "reserve requests n*stride + budget rounded up to the storage alignment", "bytes": show(e.args[1])[:160]})
+                if not ok:
+                    rec.finding(rule, "reserve:alloc-size-in-%s[%s]" % (tu.libfn(sm, e).split("@")[0], ck.catkey()),
+                                "w_reserve allocates %s bytes; expected n*stride + budget = %s rounded up to %d (at %s)" % (
+                                    show(e.args[1])[:200], show(want)[:120], tu.pl.sea, tu.where(sm, e)), config=tu.cfg)
+    for fn in ("w_copy_ctor", "w_copy_assign", "w_move_assign"):
+        if tu.has(fn):
+            cases.append((fn, "post", [("source's memory_consumption()", tu.obs(fn, "pre_w", "mc")), ("own previous memory_consumption()", tu.obs(fn, "pre", "mc") if fn != "w_copy_ctor" else None)]))
+    for fn, st, allowed in cases:
+        sm = tu.S(fn)
+        for e in sm.events:
+            if e.kind != "ALLOC":
+                continue
+            # data block allocations: the result is (a case of) data_begin() afterwards
+            if not _mentions(tu.obs(fn, st, "begin"), e.res.single_atom()):
+                continue
+            ok = False
+            for nm, t in allowed:
+                if t is None:
+                    continue
+                good = True
+                for f in case_split([e.args[1], t], Facts([e.guard]), max_cases=16):
+                    d = simplify(e.args[1], f) - simplify(t, f)
+                    if not (d.is_const() and d.c == 0):
+                        good = False
+                        break
+                if good:
+                    ok = True
+                    break
+            rec.ob(rule, ok, {"config": tu.cfg, "witness": fn, "obligation": "data block allocation requests the source's footprint or a fresh vector's", "bytes": show(e.args[1])[:160]})
+            if not ok:
+                rec.finding(rule, "%s:alloc-size-in-%s[%s]" % (fn.replace("w_", ""), tu.libfn(sm, e).split("@")[0], ck.catkey()),
+                            "%s allocates a data block of %s bytes, which is neither %s (at %s)" % (
+                                fn, show(e.args[1])[:200], " nor ".join("%s = %s" % (nm, show(t)[:120]) for nm, t in allowed if t is not None), tu.where(sm, e)), config=tu.cfg)
+
+
+def mk_mul_(a, b):
+    from .terms import mk_mul
+    return mk_mul(a, b)
+
+
+def rule_P1e(ck, rule="P1e"):
+    """all-fixed vectors: the element stride exceeds the extent of one element by less than the storage
+    alignment (elements follow each other at the lowest aligned address; also: elements never overlap)"""
+    tu, rec = ck.tu, ck.rec
+    if not tu.pl.all_fixed_locator or not tu.has("w_ctor") or not tu.has("w_observe_at"):
+        return
+    csm = tu.S("w_ctor")
+    cps = tu.meta["w_ctor"]["params"]
+    fn = "w_observe_at"
+    fsat = _fs_atoms(tu, fn, "v")
+    sub = {("arg", cps.index("f%d" % i)): fsat[i] for i in range(tu.pl.nfixed)}
+    stride = csm.interp.subst_atoms(tu.obs("w_ctor", "post", "step"), sub)
+    extent = tu.obs(fn, "o", "de", at=True) - tu.obs(fn, "o", "db", at=True)
+    fm = FieldMap(tu)
+    cg = Cong(tu, fn, tu.pl.sea, fm, witness_facts(tu, fn, fm))
+    d = stride - extent
+    good_lo = good_hi = True
+    bad = None
+    for f in case_split([d], cg.facts, max_cases=16):
+        d2 = simplify(d, f)
+        if not ((d2.is_const() and d2.c >= 0) or f.nonneg(d2)):
+            good_lo, bad = False, d2
+        if not ((d2.is_const() and d2.c <= tu.pl.sea - 1) or f.nonneg(const(tu.pl.sea - 1) - d2)):
+            good_hi, bad = False, d2
+    rec.ob(rule + "-fit", good_lo, {"config": tu.cfg, "obligation": "element stride >= extent of one element", "stride": show(stride)[:160], "extent": show(extent)[:160]})
+    rec.ob(rule + "-tight", good_hi, {"config": tu.cfg, "obligation": "element stride - extent < storage alignment %d" % tu.pl.sea})
+    if bad is not None and (has_unknown(bad) or fm_imprecise(bad)):
+        rec.broken("%s %s: stride - extent undecided: %s" % (tu.cfg, rule, show(bad)[:200]))
+        return
+    if not good_lo:
+        rec.finding(rule + "-fit", "stride-smaller-than-element[%s:%s]" % (tu.pl.name, ck.catkey()),
+                    "the element stride %s can be smaller than the extent %s of one element: consecutive elements overlap (difference %s)" % (
+                        show(stride)[:200], show(extent)[:200], show(bad)[:200]), config=tu.cfg)
+    if not good_hi:
+        rec.finding(rule + "-tight", "stride-wastes-alignment-unit[%s:%s]" % (tu.pl.name, ck.catkey()),
+                    "the element stride %s exceeds the extent %s of one element by %s, not provably less than the storage alignment %d" % (
+                        show(stride)[:200], show(extent)[:200], show(bad)[:200], tu.pl.sea), config=tu.cfg)
+
+
+def _mentions(t, a):
+    found = []
+
+    def fn(x):
+        if x == a:
+            found.append(x)
+
+    walk_atoms(t, fn)
+    return bool(found)
